@@ -18,6 +18,34 @@ def main : IO UInt32 := do
       IO.println s!"LAYOUT {nameOf s.name} size={size} align={al} {fields}"
   for (c, v) in rustConsts do
     IO.println s!"CONST {nameOf c}={v}"
+  -- witnesses: the declarations on which the sides disagree — the same membership tests as the theorems
+  -- `header_agrees_with_rust`, `dart_agrees_with_rust`, `structs_agree` of Props/C15
+  let showFn (f : Fn) : String := s!"{reprStr f.ret}({", ".intercalate (f.params.map reprStr)})"
+  let showSt (s : Struct) : String := ", ".intercalate (s.fields.map fun (n, t) => s!"{nameOf n}:{reprStr t}")
+  let other (l : List Fn) (n : Nat) : String := match l.find? (·.name == n) with | some g => showFn g | none => "<absent>"
+  let otherS (l : List Struct) (n : Nat) : String := match l.find? (·.name == n) with | some g => showSt g | none => "<absent>"
+  for f in rustFns do
+    if !(headerFns.contains f) then
+      IO.println s!"ABIDIFF function {nameOf f.name}: Rust {showFn f} | header {other headerFns f.name}"
+  for f in headerFns do
+    if !(rustFns.contains f) && (rustFns.find? (·.name == f.name)).isNone then
+      IO.println s!"ABIDIFF function {nameOf f.name}: header {showFn f} | Rust <absent>"
+  for f in dartFns do
+    if !(rustFns.contains f) then
+      IO.println s!"ABIDIFF function {nameOf f.name}: Dart {showFn f} | Rust {other rustFns f.name}"
+  for s in rustStructs do
+    if !(headerStructs.contains s) then
+      IO.println s!"ABIDIFF struct {nameOf s.name}: Rust [{showSt s}] | header [{otherS headerStructs s.name}]"
+  for s in headerStructs do
+    if !(rustStructs.contains s) && (rustStructs.find? (·.name == s.name)).isNone then
+      IO.println s!"ABIDIFF struct {nameOf s.name}: header [{showSt s}] | Rust <absent>"
+  for s in dartStructs do
+    if !(rustStructs.contains s) then
+      IO.println s!"ABIDIFF struct {nameOf s.name}: Dart [{showSt s}] | Rust [{otherS rustStructs s.name}]"
+  if dartStructs.length != rustStructs.length then
+    IO.println s!"ABIDIFF structs: Dart declares {dartStructs.length}, Rust {rustStructs.length}"
+  if statusVariants != documentedVariants then
+    IO.println s!"ABIDIFF status codes: Rust enum order {reprStr statusVariants} | documented {reprStr documentedVariants}"
   IO.println s!"DARTFNS {" ".intercalate (dartFns.map fun f => nameOf f.name)}"
   IO.println s!"RUSTFNS {" ".intercalate (rustFns.map fun f => nameOf f.name)}"
   return 0
